@@ -91,4 +91,17 @@ Proof. exact EquivStatic.handle_upload_tie. Qed.
 Print Assumptions C14_code_handle_upload_tie.
 
 
+
+(* ---- tie to the code (protocol/request.py TitanRequest.from_line: the path, size, media type and token the upload handler receives): theorems of coq/Equiv/EquivUrl.v (statements there), re-checked against the definitions
+   regenerated from /repo's working tree; see DESIGN.md 11.8 ---- *)
+From NV Require Equiv.EquivUrl.
+Theorem C14_code_titan_from_line_tie : ltac:(let t := type of @EquivUrl.titan_from_line_tie in exact t).
+Proof. exact (@EquivUrl.titan_from_line_tie). Qed.
+Print Assumptions C14_code_titan_from_line_tie.
+
+Theorem C14_code_parse_titan_params_tie : ltac:(let t := type of @EquivUrl.parse_titan_params_tie in exact t).
+Proof. exact (@EquivUrl.parse_titan_params_tie). Qed.
+Print Assumptions C14_code_parse_titan_params_tie.
+
+
 Close Scope N_scope.
